@@ -171,7 +171,7 @@ def gen_fault(rng, decoder, data_len):
     elif k in ("pad_truncate", "pad_only"):
         f.update(size=rng.choice(BOUNDARIES), where=rng.choice(["comment", "space", "text"]), cut=rng.choice([0, 0, 1, -1, 7]))
     elif k == "insert_bytes":
-        f.update(off=rng.choice([0, 0, n, rng.randrange(n + 1), rng.randrange(n + 1), rng.randrange(n + 1), rng.randrange(n + 1)]), text=rng.choice([" ", "\n", "\t\r\n ", "\x0b", "\u00a0", "\ufeff", "<", ">", "&", "&#0;", "&nope;", "<!--", "]]>", "<?x", "\x00", "\xff\xfe", '"', "'", "</x>", "<a>", "{", "}", "[", ",", "\\u12", "\\", "\ud800".encode("utf-8", "surrogatepass").decode("latin-1")]))
+        f.update(off=rng.choice([0, 0, n, rng.randrange(n + 1), rng.randrange(n + 1), rng.randrange(n + 1), rng.randrange(n + 1)]), text=rng.choice([" ", "\n", "\t\r\n ", "\x0b", "\u00a0", "\ufeff", "<", ">", "&", "&#0;", "&#xD800;", "&#xDFFF;", "&#xFFFE;", "&#x110000;", "&#55296;", "&#x1F600;", "&#x0;", "&#;", "&#x;", "&nope;", "<!--", "]]>", "<?x", "\x00", "\xff\xfe", '"', "'", "</x>", "<a>", "{", "}", "[", ",", "\\u12", "\\", "\ud800".encode("utf-8", "surrogatepass").decode("latin-1")]))
     elif k in XML_STRUCT_FAULTS or k in JSON_STRUCT_FAULTS:
         f.update(idx=rng.randrange(64), idx2=rng.randrange(64), val=rng.randrange(1 << 16))
     return f
